@@ -202,7 +202,7 @@ static const char *VARS_JSON =
 
 // replaces every string inside the containers of v by a pointer-to-value entry whose target lives in `pool`
 template <typename Ch>
-static void ptrify(Value<Ch> &v, std::deque<Value<Ch>> &pool) {
+static void ptrify(Value<Ch> &v, std::deque<Value<Ch>> &pool, bool containers = false) {
     if (!(v.IsArray() || v.IsObject())) return;
     for (SizeT i = 0; i < v.Size(); ++i) {
         Value<Ch> *e = v.GetValue(i);
@@ -210,7 +210,13 @@ static void ptrify(Value<Ch> &v, std::deque<Value<Ch>> &pool) {
         if (e->IsString()) {
             pool.emplace_back(Memory::Move(*e));
             e->SetPointerToValue(&pool.back());
-        } else ptrify(*e, pool);
+        } else {
+            ptrify(*e, pool, containers);
+            if (containers && (e->IsArray() || e->IsObject())) {     // (children first: the moved container keeps its pointer entries)
+                pool.emplace_back(Memory::Move(*e));
+                e->SetPointerToValue(&pool.back());
+            }
+        }
     }
 }
 int main(int argc, char **argv) {
@@ -308,7 +314,10 @@ int main(int argc, char **argv) {
             Value<char16_t>   v16 = parse_value<char16_t>(vj);
             ptrify(v16, pool16);
             std::vector<long> o16 = render<char16_t>(t, v16, p16);
+            // the 32-bit rendering reads every nested array / object (and every string) through a pointer-to-value entry
+            std::deque<Value<char32_t>> pool32;
             Value<char32_t>   v32 = parse_value<char32_t>(vj);
+            ptrify(v32, pool32, true);
             std::vector<long> o32 = render<char32_t>(t, v32, p32);
             {
                 bool              pw = true;
